@@ -1263,7 +1263,7 @@ class Gen(object):
     def __init__(self, rng, depth=4, width=4, p_raise=0.15, p_typed=0.3, p_fault_ser=0.0, p_handoff=0.08,
                  p_reenter=0.05, p_tb=0.05, p_finish_again=0.05, base_only=0.3, sr=0.15, p_try=0.15,
                  styles=("with", "with", "ctx", "run"), p_actlog=0.08, p_task=0.08, p_raw=0.0, p_hostile=0.0,
-                 p_finish_inside=0.0, p_reserved=0.0, p_logcall=0.0, p_handler=0.05):
+                 p_finish_inside=0.0, p_reserved=0.0, p_logcall=0.0, p_handler=0.05, vias=None):
         self.rng = rng
         self.__dict__.update(locals())
         self.next_h = 0
@@ -1450,7 +1450,7 @@ class Gen(object):
         if enclosing and r2 < self.p_try + self.p_tb + self.p_actlog:
             return ["actlog", rng.choice(enclosing), rng.randrange(10, 16), self.fields(2, 32, 40)]
         if enclosing and depth > 0 and r2 < self.p_try + self.p_tb + self.p_actlog + self.p_handoff:
-            via = rng.choice(["bytes", "str", "preserve", "bytes_inline", "preserve_inline"])
+            via = rng.choice(list(self.vias) if self.vias else ["bytes", "str", "preserve", "bytes_inline", "preserve_inline"])
             h = enclosing[-1] if via.startswith("preserve") else rng.choice(enclosing)
             # preserve_context uses current_action(): only valid if the innermost enclosing action is current
             self.next_slot += 1
